@@ -68,6 +68,8 @@ func createASTTypeExpr(pkg string, t types.Type, varPool *VarPool, imports map[s
 					IsDefaultName: newPkgName == pkgName,
 					IsUsed:        false, // Will be marked during code generation
 				}
+				// refer to the package by the name it is imported under, not by its default name
+				pkgName = newPkgName
 			}
 
 			return &ast.SelectorExpr{
@@ -95,6 +97,8 @@ func createASTTypeExpr(pkg string, t types.Type, varPool *VarPool, imports map[s
 					IsDefaultName: newPkgName == pkgName,
 					IsUsed:        false, // Will be marked during code generation
 				}
+				// refer to the package by the name it is imported under, not by its default name
+				pkgName = newPkgName
 			}
 
 			return &ast.SelectorExpr{
